@@ -209,6 +209,76 @@ def build_history(r, k: dict, *, n_lo=30, n_hi=220) -> list[dict]:
     return ops
 
 
+ZCLASS = ["radiator_valve", "zone_valve", "electric_heat", "mixing_valve", "underfloor_heating"]
+ACT_BY_CLASS = {"radiator_valve": ["04", "00"], "zone_valve": ["13"], "electric_heat": ["13"], "mixing_valve": ["13"], "underfloor_heating": []}
+
+
+def gen_schema(r, max_zones: int) -> dict:
+    """A configuration schema the validator may accept: 1-3 controllers, 0-12 zones of any class with any sensor / actuator
+    sets, DHW parts, UFH controllers with circuit maps, appliance control, orphans.  One device appears in one place only."""
+    used: set[str] = set()
+
+    def dev(t: str) -> str:
+        while True:
+            d = f"{t}:{r.randrange(1000, 260000):06d}"
+            if d not in used:
+                used.add(d)
+                return d
+
+    out: dict = {}
+    ctls = [dev(r.choice(["01", "01", "01", "23"])) for _ in range(r.choice([1, 1, 1, 2, 3]))]
+    for ci, ctl in enumerate(ctls):
+        tcs: dict = {}
+        if r.random() < 0.5:
+            tcs["system"] = {"appliance_control": dev(r.choice(["10", "13"]))}
+        n = r.choice([0, 1, 2, 4, 8, 12])
+        zones = {}
+        ctl_is_sensor = False
+        for zi in sorted(r.sample(range(min(12, max_zones)), min(n, min(12, max_zones)))):
+            cls = r.choice(ZCLASS + [None])
+            z: dict = {}
+            if cls is not None and r.random() < 0.8:
+                z["class"] = cls
+            st = r.choice(["01", "03", "04", "12", "22", "34", "00", None, None])
+            if st == "01":
+                if not ctl_is_sensor:
+                    z["sensor"] = ctl
+                    ctl_is_sensor = True
+            elif st is not None:
+                z["sensor"] = dev(st)
+            acts = [dev(r.choice(ACT_BY_CLASS[cls])) for _ in range(r.choice([0, 1, 1, 2, 4]))] if cls and ACT_BY_CLASS[cls] else []
+            if acts and cls == "radiator_valve" and "sensor" in z and z["sensor"][:2] == "04" and r.random() < 0.3:
+                acts[0] = z["sensor"]  # a TRV that is also the zone's sensor
+            if acts:
+                z["actuators"] = acts
+            zones[f"{zi:02X}"] = z
+        if zones:
+            tcs["zones"] = zones
+        if r.random() < 0.4:
+            d = {}
+            if r.random() < 0.8:
+                d["sensor"] = dev("07")
+            if r.random() < 0.6:
+                d["hotwater_valve"] = dev("13")
+            if r.random() < 0.4:
+                d["heating_valve"] = dev("13")
+            if d:
+                tcs["stored_hotwater"] = d
+        if r.random() < 0.25:
+            tcs["underfloor_heating"] = {dev("02"): {"circuits": {f"{c:02X}": {"zone_idx": f"{r.randrange(8):02X}"} for c in
+                                                                  sorted(r.sample(range(8), r.choice([0, 1, 3])))}}
+                                         for _ in range(r.choice([1, 1, 2]))}
+        if r.random() < 0.2 and "underfloor_heating" not in tcs:
+            tcs["orphans"] = [dev("02")]  # (the only kind of device a system keeps without a role)
+        out[ctl] = tcs
+    out["main_tcs"] = r.choice(ctls)
+    if r.random() < 0.4:
+        out["orphans_heat"] = sorted(dev(r.choice(["04", "13", "34", "10", "07"])) for _ in range(r.choice([1, 3])))
+    if r.random() < 0.3:
+        out["orphans_hvac"] = sorted(dev(r.choice(["32", "37", "29", "20"])) for _ in range(r.choice([1, 2])))
+    return out
+
+
 def generate(plan) -> None:
     r = plan.rng("gen")
     k = plan.d["knobs"]
@@ -234,6 +304,9 @@ def generate(plan) -> None:
         from . import state_restore
 
         return state_restore.generate(plan, build_history)
+    if sc == "config":
+        k["config_schema"] = gen_schema(r, k["max_zones"])
+        k["eavesdrop"] = r.random() < 0.3
     # non-interference twin: a second gateway hears the same history minus the spliced-in system (eavesdropping off only)
     twin_wanted = bool(sc == "views" and not k["eavesdrop"] and not ff and r.random() < 0.8)
     k["p_neighbour"] = r.choice([0.0, 0.3, 1.0]) if twin_wanted else 0.0
@@ -254,11 +327,11 @@ def generate(plan) -> None:
     for _ in range(r.choice([0, 0, 1, 2, 3])):
         extra.append((r.randrange(n + 1), {"op": "adv", "s": r.choice([30, 200, 400, 800, 3700, 7300, 90000, 200000]),
                                           "how": r.choice(["sleep", "jump"])}))
-    n_sch = r.choice([1, 2, 4]) if sc == "schema" else r.choice([0, 1])
+    n_sch = r.choice([1, 2, 4]) if sc in ("schema", "config") else r.choice([0, 1])
     for _ in range(n_sch):
         extra.append((r.randrange(n + 1), {"op": "schema", "reload": r.random() < 0.6}))
     extra.sort(key=lambda e: e[0])
-    out: list[dict] = []
+    out: list[dict] = [{"op": "config_check", "pin": True}] if sc == "config" else []
     j = 0
     for i, o in enumerate(ops):
         while j < len(extra) and extra[j][0] <= i:
@@ -489,13 +562,34 @@ async def run(ctx) -> None:
         return await state_restore.run(ctx)
     plan, loop, hub = ctx.plan, ctx.loop, ctx.hub
     k = plan.knob
-    gwy, ser = await start_gateway(ctx, k)
+    cfg_schema = k("config_schema")
+    if cfg_schema:
+        try:
+            SCH_GLOBAL_SCHEMAS(cfg_schema)
+        except Exception:  # noqa: the generator made something the validator refuses: nothing to check
+            ctx.probe("generated_schema_refused_by_the_validator")
+            cfg_schema = None
+    try:
+        gwy, ser = await start_gateway(ctx, k, **(cfg_schema or {}))
+    except Exception as err:  # noqa
+        ctx.violate("C15", "config_load_raised", exc_sig(err), f"Gateway(**schema) raised {type(err).__name__}: {str(err)[:300]} for a "
+                    f"schema the validator accepts: {str(cfg_schema)[:1500]}")
+        return
     inc = InconsistencyLog()
     lg = logging.getLogger("ramses_rf")
     lg.addHandler(inc)
     old_level = lg.level
     lg.setLevel(logging.WARNING)
-    await gwy.start()
+    try:
+        await gwy.start()
+    except Exception as err:  # noqa
+        if not cfg_schema:
+            raise
+        ctx.violate("C15", "config_load_raised", exc_sig(err), f"starting a gateway with a schema the validator accepts raised "
+                    f"{type(err).__name__}: {str(err)[:300]}; schema={str(cfg_schema)[:1500]}")
+        lg.removeHandler(inc)
+        lg.setLevel(old_level)
+        return
     twin = ser_t = None
     foreign: set[int] = set()
     if k("twin"):
@@ -691,6 +785,22 @@ async def run(ctx) -> None:
                 await asyncio.sleep(0.01)
             else:
                 await asyncio.sleep(min(float(o["s"]), 7300.0))
+        elif kind == "config_check" and cfg_schema:
+            await asyncio.sleep(0.05)
+            want, got = topology(cfg_schema), topology(gwy.schema)
+            ctx.probe("config_loads")
+            if got != want:
+                diff = []
+                for c in sorted(set(want) | set(got)):
+                    for part in ("zones", "dhw", "app"):
+                        if (want.get(c) or {}).get(part) != (got.get(c) or {}).get(part):
+                            diff.append(f"{c}.{part}: configured={(want.get(c) or {}).get(part)} reported={(got.get(c) or {}).get(part)}")
+                ctx.violate("C15", "config_not_reproduced", diff[0].split(":")[1].split(".")[-1] if diff else "", f"a gateway loaded with a "
+                            f"schema the validator accepts reports another topology: {'; '.join(diff)[:1200]}")
+            moves(where)
+            small = schema_check(ctx, gwy, where)
+            if small is not None:
+                await reload_check(ctx, gwy, small, where)
         elif kind == "schema":
             moves(where)
             small = schema_check(ctx, gwy, where)
